@@ -1,6 +1,6 @@
 (* C04 — parsing recovers the structure of canonically written documents.  PARTIAL: word text is inert. *)
 From Coq Require Import ZArith List Bool Lia.
-From Verif Require Import PyStr Rx RxSpec RxAnalysis UnicodeGen RxGen.
+From Verif Require Import PyStr Rx RxSpec RxAnalysis UnicodeGen RxGen Inline InlineProofs InlineInert Entry.
 Import ListNotations.
 Open Scope Z_scope.
 
@@ -34,4 +34,30 @@ Qed.
 Example C04_letters_example : memc 113 letters = true /\ length core_inline = 9%nat /\ length core_block = 11%nat.
 Proof. vm_compute. repeat split; reflexivity. Qed.
 
+(* ---- in terms of the inline parser model: a run of words is one text token ---- *)
+(* lower-case and upper-case letters, digits and the space; the text contains no newline *)
+Definition word_chars : list Z := map Z.of_nat (seq 97 26 ++ seq 65 26 ++ seq 48 10) ++ [32].
+
+Lemma inline_rules_quiet : forall hw refs C, inline_cfg hw refs = Some C ->
+  forall rk, In rk (c_rules C) -> quiet C word_chars [10] (c_spec C rk) = true.
+Proof.
+  intros hw refs C H. unfold inline_cfg in H. destruct hw; cbv beta in H;
+    match type of H with context [opt_all ?l] => let v := eval vm_compute in (opt_all l) in change (opt_all l) with v in H end;
+    inversion H; subst C; clear H; cbn [c_rules c_spec c_uni];
+    intros rk Hin; cbn in Hin; repeat (destruct Hin as [<-|Hin]; [vm_compute; reflexivity|]); contradiction.
+Qed.
+
+(* for every text of letters, digits and single or multiple spaces (no newline): the model of InlineParser returns
+   exactly [text(raw = the whole text)], with or without hard_wrap, for every reference table *)
+Theorem C04_words_parse_to_one_text_token : forall hw refs C s, inline_cfg hw refs = Some C ->
+  (forall ch, In ch s -> memc ch word_chars = true) -> inline_parse C s = Ok [TText s].
+Proof.
+  intros hw refs C s HC Hs. apply (plain_text_is_one_token C word_chars [10]).
+  - exact (inline_rules_quiet hw refs C HC).
+  - intros ch Hin. split; [apply Hs; exact Hin|]. specialize (Hs ch Hin).
+    destruct (Z.eq_dec ch 10) as [->|N]; [vm_compute in Hs; discriminate|].
+    cbn. destruct (Z.eqb_spec ch 10); [contradiction|reflexivity].
+Qed.
+
 Print Assumptions C04_letters_are_inert.
+Print Assumptions C04_words_parse_to_one_text_token.
